@@ -48,7 +48,7 @@ def run(db, rep, tier):
         rep.analysis_broken("expected >= 17 matches_response overrides, found %d" % n_over)
     nf, nob = _bounds.run_functions(db, rep, "R1-bounds", fs)
     rep.extra["functions_analysed"] = nf
-    rep.rule("R3-icmp-pairs", "ICMP / ICMPv6 queries: the matching reply type with equal identifier and sequence number is accepted, a differing "
+    rep.rule("R4-icmp-pairs", "ICMP / ICMPv6 queries: the matching reply type with equal identifier and sequence number is accepted, a differing "
                               "identifier or sequence number is not, and no other (request type, reply type) combination is", 5)
     rep.rule("R2-address-table", "IPv4: a reply from the mirrored addresses can match; one not addressed to us (or, for unicast requests, "
                                  "not coming from the requested host) never matches", 3)
@@ -232,7 +232,7 @@ def r3(db, rep):
             for (q, p), st in sorted(required.items()):
                 key = "%s:pair:%s" % (short, st)
                 if (q, p) not in accepted:
-                    rep.violation("R3-icmp-pairs", key, site,
+                    rep.violation("R4-icmp-pairs", key, site,
                                   "a %s (type %d) carrying the request's identifier and sequence number is not recognised as the "
                                   "response to a %s (type %d)" % (nm(p), p, nm(q), q))
                     continue
@@ -244,21 +244,21 @@ def r3(db, rep):
                         leaks.append(a)
                 fields = " ".join(atoms)
                 if leaks:
-                    rep.violation("R3-icmp-pairs", key, site, "the reply is accepted although `%s` is false" % leaks[0])
+                    rep.violation("R4-icmp-pairs", key, site, "the reply is accepted although `%s` is false" % leaks[0])
                 elif "id" not in fields or "seq" not in fields:
-                    rep.violation("R3-icmp-pairs", key, site, "identifier and sequence number are not both compared for %s (comparisons made: %s)"
+                    rep.violation("R4-icmp-pairs", key, site, "identifier and sequence number are not both compared for %s (comparisons made: %s)"
                                   % (nm(q), atoms))
                 else:
-                    rep.ok("R3-icmp-pairs", key, site, "%s -> %s accepted iff %s" % (nm(q), nm(p), " and ".join(atoms)))
+                    rep.ok("R4-icmp-pairs", key, site, "%s -> %s accepted iff %s" % (nm(q), nm(p), " and ".join(atoms)))
             strangers = [(q, p) for (q, p) in sorted(accepted) if (q, p) not in pairs]
             key = "%s:strangers" % short
             if strangers:
                 q, p = strangers[0]
-                rep.violation("R3-icmp-pairs", key, site,
+                rep.violation("R4-icmp-pairs", key, site,
                               "a packet of type %s (%d) is accepted as the response to a request of type %s (%d): not a request/reply pair of %s "
                               "(%d such pair(s))" % (nm(p), p, nm(q), q, ename, len(strangers)))
             else:
-                rep.ok("R3-icmp-pairs", key, site, "accepted (request, reply) type pairs %s are all request/reply pairs of %s; %d x %d values evaluated"
+                rep.ok("R4-icmp-pairs", key, site, "accepted (request, reply) type pairs %s are all request/reply pairs of %s; %d x %d values evaluated"
                        % (sorted(accepted), ename, len(dom), len(dom)))
         except ieval.Unknown as e:
             rep.analysis_broken("%s: body outside the finite evaluator: %s" % (fname, e))
